@@ -133,8 +133,8 @@ impl<'a> Parser<'a> {
                         let hex: String = [self.next()?, self.next()?, self.next()?, self.next()?]
                             .iter()
                             .collect();
-                        let code = u16::from_str_radix(&hex, 16)
-                            .map_err(|_| self.traceback(ParseError::InvalidEscapeSequence))?;
+                        let code = parse_hex(&hex)
+                            .ok_or_else(|| self.traceback(ParseError::InvalidEscapeSequence))?;
 
                         let new_char = if let Some(new_char) = char::from_u32(code as u32) {
                             new_char
@@ -148,8 +148,8 @@ impl<'a> Parser<'a> {
                                 [self.next()?, self.next()?, self.next()?, self.next()?]
                                     .iter()
                                     .collect();
-                            let code_2 = u16::from_str_radix(&hex, 16)
-                                .map_err(|_| self.traceback(ParseError::InvalidEscapeSequence))?;
+                            let code_2 = parse_hex(&hex)
+                                .ok_or_else(|| self.traceback(ParseError::InvalidEscapeSequence))?;
 
                             char::decode_utf16([code, code_2])
                                 .next()
@@ -339,6 +339,17 @@ fn quiet_assert(condition: bool, error: TracebackError) -> Result<(), TracebackE
         Ok(())
     } else {
         Err(error)
+    }
+}
+
+/// Convert the four hexadecimal digits of a `\uXXXX` escape sequence.
+///
+/// `u16::from_str_radix` alone would also accept a sign, as in `\u+041`.
+fn parse_hex(hex: &str) -> Option<u16> {
+    if hex.chars().all(|c| c.is_ascii_hexdigit()) {
+        u16::from_str_radix(hex, 16).ok()
+    } else {
+        None
     }
 }
 
